@@ -52,6 +52,7 @@ type c09Result struct {
 	Samples     []c09Case      `json:"samples,omitempty"`
 	SampleOut   []string       `json:"sample_outcomes,omitempty"`
 	DeviceReads int            `json:"device_reads"`
+	Digest      uint64         `json:"digest"`
 }
 
 func c09Key(c *c09Case, class string) string {
@@ -223,6 +224,7 @@ func CheckC09(e *Env) (int, error) {
 	var trouble error
 	var samples []interface{}
 	extreme := 0
+	var od OrderedDigest
 	e.Logf("C09: %d jobs (%d capped single-count processes)", len(jobs), len(ext))
 	e.Parallel(len(jobs), func(i int) {
 		j := jobs[i]
@@ -240,6 +242,11 @@ func CheckC09(e *Env) (int, error) {
 				return
 			}
 			extreme++
+			if v != nil {
+				od.Add(i, strDigest(v.Class))
+			} else {
+				od.Add(i, 1)
+			}
 			tot.Cases++
 			tot.CountCases++
 			tot.Rejected++
@@ -266,6 +273,7 @@ func CheckC09(e *Env) (int, error) {
 			}
 			return
 		}
+		od.Add(i, r.Digest)
 		tot.Cases += r.Cases
 		tot.CountCases += r.CountCases
 		tot.EntCases += r.EntCases
@@ -310,6 +318,7 @@ func CheckC09(e *Env) (int, error) {
 		"probes":              tot.Probes,
 		"faults_fired":        map[string]int{"eof_at_0_state": tot.ByState["eof0"], "err_at_0_state": tot.ByState["err0"], "stall_state": tot.ByState["stall"], "fragmenting_state": tot.ByState["frag"]},
 		"raw_violations":      tot.ViolCount,
+		"outcome_digest":      od.String(),
 		"count_range":         []int{-span, span},
 		"entropy_len_range":   []int{0, entHi},
 	}
